@@ -242,6 +242,14 @@ def _kf_redecorated(kind, passes):
     return kind in _LOCATED and passes >= 2
 
 
+def _place(t):
+    """the validated text and the index of the tag under test among its children: the tag stands at character 0
+    in the VP_LEAD=0 cells ("<t>, y") and behind another tag otherwise ("y, <t>")"""
+    if R.env_int("VP_LEAD", 1) == 0:
+        return t + ", y", 0
+    return "y, " + t, 1
+
+
 def decorate_once(t: str, i: int, j: int, kind: int, sev: int, warn: bool, passes: int, route: int,
                   row: int) -> bool:
     """
@@ -254,9 +262,9 @@ def decorate_once(t: str, i: int, j: int, kind: int, sev: int, warn: bool, passe
     pre: not _known("C12-suffix-repeated", _kf_redecorated(kind, passes))
     post: _
     """
-    s = "y, " + t
+    s, k = _place(t)
     h = HedString(s, NOSCHEMA)
-    tag = h.children[1]
+    tag = h.children[k]
     a, b = tag.span
     eh = ErrorHandler(check_for_warnings=warn)
     eh.push_error_context(ErrorContext.ROW, row)
@@ -349,9 +357,9 @@ def _slot_base(sl, tag_text):
 
 
 def _run_validate(t, b0, b1, f0, warn, ctx):
-    s = "y, " + t
+    s, k = _place(t)
     h = HedString(s, NOSCHEMA)
-    tag = h.children[1]
+    tag = h.children[k]
     basic = _labelled(b0, tag, len(t)) + _labelled(b1, tag, len(t))
     full = _labelled(f0, tag, len(t))
     eh = ErrorHandler(check_for_warnings=warn)
@@ -648,11 +656,13 @@ HARNESSES = [
                           _ER + "ErrorHandler.format_error_from_context",
                           _ER + "ErrorHandler.filter_issues_by_severity", _ER + "hed_error",
                           _ER + "hed_tag_error"] + _T_DECOR,
-        quick=R.tier(cells=R.int_cells("VP_KIND", 0, 3), env={"VP_N": 2}, timeout=300,
-                     bound="string 'y, ' + t, t lower-case letters with 1 <= len(t) <= 2; issue kind in {fragment, whole "
+        quick=R.tier(cells=R.product_cells(R.int_cells("VP_KIND", 0, 3), R.int_cells("VP_LEAD", 0, 1)),
+                     env={"VP_N": 2}, timeout=300,
+                     bound="string 'y, ' + t or t + ', y' (tag at character 0), t lower-case letters with 1 <= len(t) <= 2; issue kind in {fragment, whole "
                            "tag, tag-less, foreign tag}; severity override in {1,10}; warnings on/off; 1 or 2 "
                            "decoration passes; three decoration routes; any row number"),
-        thorough=R.tier(cells=R.product_cells(R.int_cells("VP_KIND", 0, 3), R.int_cells("VP_ROUTE", 0, 2)),
+        thorough=R.tier(cells=R.product_cells(R.int_cells("VP_KIND", 0, 3), R.int_cells("VP_ROUTE", 0, 2),
+                                              R.int_cells("VP_LEAD", 0, 1)),
                         env={"VP_N": 4}, timeout=900,
                         bound="as quick with 1 <= len(t) <= 4"),
         what="after k in {1,2} passes through add_context_and_filter / format_error_with_context / "
@@ -664,12 +674,13 @@ HARNESSES = [
     R.H("validate_decorates_once", ["hed.validator.hed_validator.HedValidator.validate",
                                     _ER + "check_for_any_errors",
                                     _ER + "ErrorHandler.filter_issues_by_severity"] + _T_DECOR,
-        quick=R.tier(cells=R.int_cells("VP_B0", 0, 4), env={"VP_N": 1}, timeout=300,
-                     bound="real HedValidator.validate over every combination of 2 basic-stage and 1 full-stage "
+        quick=R.tier(cells=R.product_cells(R.int_cells("VP_B0", 0, 4), R.int_cells("VP_LEAD", 0, 1)),
+                     env={"VP_N": 1}, timeout=300,
+                     bound="(tag under test at character 0 or behind another tag) real HedValidator.validate over every combination of 2 basic-stage and 1 full-stage "
                            "issue slots (none / located warning / located error / tag-less warning / tag-less "
                            "error), warnings on/off, handler with/without the string; t one lower-case letter"),
-        thorough=R.tier(cells=R.int_cells("VP_B0", 0, 4), env={"VP_N": 3}, timeout=900,
-                        bound="as quick with 1 <= len(t) <= 3"),
+        thorough=R.tier(cells=R.product_cells(R.int_cells("VP_B0", 0, 4), R.int_cells("VP_LEAD", 0, 1)),
+                        env={"VP_N": 3}, timeout=900, bound="as quick with 1 <= len(t) <= 3"),
         what="issues returned by HedValidator.validate are well-formed, located iff they name a tag and the handler "
              "holds the string, carry the suffix exactly once, and errors-only == error-severity part (same order, "
              "same codes and offsets) of the warnings-on result",
